@@ -971,15 +971,15 @@ def register_link_roots(R):
                               z3.ForAll([a], z3.Implies(T.R(a), sel(T.ID, a) != -1)))
             if which == "every-parent-id-names-a-row":
                 return T.parents_exist()
-            if which == "no-cycle(depth-witness)":
-                return z3.ForAll([a], z3.Implies(T.R(a), z3.And(dp18(a) >= 0, z3.Implies(pa != -1, dp18(T.e(a)) < dp18(a)))))
+            if which == "no-cycle(dp18-is-the-depth)":
+                return z3.ForAll([a], z3.Implies(T.R(a), z3.And(dp18(a) >= 0, z3.If(pa == -1, dp18(a) == 0, dp18(a) == dp18(T.e(a)) + 1))))
             if which == "comp18-is-the-row-of-the-root":
                 return z3.ForAll([a], z3.Implies(T.R(a), z3.And(T.R(comp18(a)), sel(T.PID, comp18(a)) == -1, comp18(a) == z3.If(pa == -1, a, comp18(T.e(a))))))
             raise KeyError(which)
 
         return (which, f)
 
-    PRE = [pre(nm) for nm in ("has-a-root", "ids-pairwise-distinct-and-never-the-marker", "every-parent-id-names-a-row", "no-cycle(depth-witness)",
+    PRE = [pre(nm) for nm in ("has-a-root", "ids-pairwise-distinct-and-never-the-marker", "every-parent-id-names-a-row", "no-cycle(dp18-is-the-depth)",
                               "comp18-is-the-row-of-the-root")]
 
     # ------------------------------------------------------------ loop invariant
@@ -1041,7 +1041,7 @@ def register_link_roots(R):
                 rx = sel(C.rt, x)
                 return z3.ForAll([x], z3.Implies(C.R(x), z3.And(
                     C.R(rx), C.cur_root(rx), sel(C.dp, x) >= 0,
-                    z3.If(C.cur_root(x), rx == x, z3.And(C.R(C.P(x)), sel(C.rt, C.P(x)) == rx, sel(C.dp, C.P(x)) < sel(C.dp, x))))))
+                    z3.If(C.cur_root(x), z3.And(rx == x, sel(C.dp, x) == 0), z3.And(C.R(C.P(x)), sel(C.rt, C.P(x)) == rx, sel(C.dp, x) == sel(C.dp, C.P(x)) + 1)))))
             if which == "labels-are-equal-exactly-within-a-tree":
                 d = labels_of(v)
                 return z3.And(d.nz() == C.n, z3.ForAll([x, y], z3.Implies(z3.And(C.R(x), C.R(y)), (sel(d.arr, x) == sel(d.arr, y)) == (sel(C.rt, x) == sel(C.rt, y)))))
@@ -1113,10 +1113,10 @@ def register_link_roots(R):
                 return z3.ForAll([x], z3.Implies(z3.And(T.R(x), x != r0), sel(P1, x) != -1))
             if which == "every-original-edge-kept":
                 return z3.ForAll([x], z3.Implies(z3.And(T.R(x), sel(P0, x) != -1), sel(P1, x) == sel(P0, x)))
-            if which == "no-cycle-introduced(every-row-hangs-under-a-row-of-smaller-depth,only-the-first-root-has-no-parent)":
+            if which == "no-cycle-introduced(every-row-hangs-one-level-below-its-parent-row,the-first-root-is-the-only-row-at-depth-0)":
                 par, dp = witnesses(E, v, T.n)
                 Px = z3.If(sel(P0, x) == -1, sel(par, x), T.e(x))
-                return z3.ForAll([x], z3.Implies(T.R(x), z3.And(sel(dp, x) >= 0, z3.Implies(x != r0, z3.And(T.R(Px), sel(ID, Px) == sel(P1, x), sel(dp, Px) < sel(dp, x))))))
+                return z3.ForAll([x], z3.Implies(T.R(x), z3.And(sel(dp, x) >= 0, z3.If(x == r0, sel(dp, x) == 0, z3.And(T.R(Px), sel(ID, Px) == sel(P1, x), sel(dp, x) == sel(dp, Px) + 1)))))
             raise KeyError(which)
 
         return f
@@ -1128,7 +1128,7 @@ def register_link_roots(R):
         return z3.And(z3.BoolVal(set(d1.cols) == set(d0.cols)), zint(d1.n) == zint(d0.n), *out)
 
     POSTS = ["first-root-kept", "single-root", "every-original-edge-kept",
-             "no-cycle-introduced(every-row-hangs-under-a-row-of-smaller-depth,only-the-first-root-has-no-parent)"]
+             "no-cycle-introduced(every-row-hangs-one-level-below-its-parent-row,the-first-root-is-the-only-row-at-depth-0)"]
     R.add(f"{NORM}:link_roots_to_nearest_", prop="C18", setup=setup, requires=PRE, modifies=["df"],
           ensures=[(nm, post(nm)) for nm in POSTS] + [("attributes-untouched", other_cols)],
           loops={0: dict(invariant=[(nm, inv(nm)) for nm in INV], modifies=["G", "df"], rebind=AnyName())},
